@@ -101,6 +101,12 @@ def write_shard(mod, cases, path):
         pre = getattr(mod, "SHARD_PRELUDE", "")
         if pre:
             fh.write(pre + "\n")
+        seen = set()
+        for c in cases:
+            for name, text in getattr(c, "prelude", ()):
+                if name not in seen:
+                    seen.add(name)
+                    fh.write(text + "\n")
         fh.write(f"Definition cases : list {mod.CASE_TYPE} :=\n [\n")
         fh.write(";\n".join("  " + c.coq for c in cases))
         fh.write("\n ].\n")
